@@ -16,7 +16,9 @@ var vpC32Indexes = []uint64{0, 1, 2, 127, 128, 255, 256, 16383, 16384, 65535, 65
 	1<<56 - 1, 1 << 56, 1<<63 - 1, 1 << 63, 1<<64 - 1}
 
 func vpC32GenIndex(t *rapid.T, label string) uint64 {
-	switch rapid.IntRange(0, 3).Draw(t, label+"_kind") {
+	switch rapid.IntRange(0, 4).Draw(t, label+"_kind") {
+	case 4:
+		return rapid.SampledFrom([]uint64{0, 1, 1<<32 - 1, 1 << 32}).Draw(t, label+"_named")
 	case 0:
 		return rapid.SampledFrom(vpC32Indexes).Draw(t, label+"_boundary")
 	case 1:
